@@ -21,7 +21,9 @@ RULE = ("case = (model spec, optional truncation, 14 generated intervals of ever
 ASSUMPTIONS = [
     "scipy.integrate.quad of the model's density is trusted as oracle; its own error estimate enters the tolerance "
     "(|obs-val| <= 1e-7|val| + 1e-12*scale + 10*err) and comparisons whose estimate exceeds 1e-8*scale are skipped",
-    "parameter boxes of DESIGN.md section 3; CGMY y kept >= 0.05 away from the integers 0, 1, 2 except exactly 0 and 1",
+    "parameter boxes of DESIGN.md section 3; CGMY y kept >= 0.05 away from the integers 0, 1, 2 except exactly 0 and 1, and except a few cases "
+    "2e-6 .. 1e-3 away from 1, judged with the relative tolerance 1e-7 + 1e-13 (1 + x^2) / |y - 1|, x = decay rate x end point (conditioning of the "
+    "incomplete-gamma recurrences next to their removable singularity; observed on the unchanged tree: up to 1e-5 on far-tail masses of 1e-11 at |y - 1| = 2e-6)",
 ]
 REQUIRED_COUNTERS = ["cmp_integrate", "cmp_x", "cmp_xx", "cmp_xn", "additivity", "sign_rule", "truncated_cmp", "successive_truncations",
                      "closed_form_calls", "library_quad_calls"]
@@ -67,6 +69,11 @@ def gen_cases(tier, seed):
         fam = W.FAMILIES[i % 4]
         branch = W.CGMY_BRANCHES[(i // 4) % 5] if fam == "CGMY" else None
         specs.append(W.gen_model_spec(rng, fam, branch, exp=False))
+    # activity indices a few 1e-6 .. 1e-3 away from 1 (the closed forms switch formula AT 1, not near it)
+    for i in range(6 if tier == "quick" else 40):
+        sp = W.gen_model_spec(rng, "CGMY", "0<y<1" if i % 2 else "1<y<2", exp=False)
+        sp["params"]["y"] = float(1.0 + (-1.0 if i % 2 else 1.0) * 10.0 ** rng.uniform(-5.7, -3.0))
+        specs.append(sp)
     for k, spec in enumerate(specs):
         trunc = None
         if k % 3 == 1:
@@ -157,6 +164,19 @@ def _run_case(case, R, mon):
         label_t = label
     alpha = W.activity_index(spec)
     breaks = W.density_breakpoints(spec)
+    # the CGMY closed forms have a removable singularity at y = 1: at a distance d from it they are conditioned like eps / d
+    near_one = None
+    if spec["family"] == "CGMY" and 0 < abs(spec["params"]["y"] - 1.0) < 0.04:
+        near_one = abs(spec["params"]["y"] - 1.0)
+        R.hit("activity_index_next_to_one")
+
+    def rtol_for(a, b):
+        """relative tolerance: 1e-7, plus -- next to y = 1 -- the conditioning of the recurrences of the incomplete gamma function, which divide
+        a difference of terms of relative size x^2 (x = decay rate times the end point) by (1 - y)"""
+        if near_one is None:
+            return RTOL
+        x = max([(spec["params"]["m"] if e > 0 else spec["params"]["g"]) * abs(e) for e in (a, b) if math.isfinite(e)] + [1.0])
+        return RTOL + 1e-13 * (1.0 + x * x) / near_one
     R.evaluation()
     R.klass(label_t)
     nontrivial = False
@@ -233,7 +253,7 @@ def _run_case(case, R, mon):
             if abs(val) > 1e-9 * sc and abs(val) > 100 * qtol:
                 nontrivial = True
                 R.hit("nontrivial_comparisons")
-            if not Q.close(obs, val, err, RTOL, 1e-12 * sc + qtol):
+            if not Q.close(obs, val, err, rtol_for(a, b), 1e-12 * sc + qtol):
                 R.violation(key_base, f"{label_t}: nu.{mname}({a}, {b}) = {obs!r} but quadrature of x^{n}*nu(x) gives "
                             f"{val!r} (+-{err:.1e})", {"spec": spec, "trunc": trunc, "a": a, "b": b, "n": n,
                                                        "observed": obs, "oracle": val, "oracle_err": err})
